@@ -594,6 +594,10 @@ HostCat == <<
   H(S("a") \o <<65295>> \o S("b"), "idna-maps-to-delimiter", 0),
   H(S("a") \o <<65311>> \o S("b"), "idna-maps-to-delimiter", 0),
   H(S("a") \o <<65283>> \o S("b"), "idna-maps-to-delimiter", 0),
+  \* characters that compatibility normalisation turns into a full stop (ONE DOT LEADER, SMALL FULL STOP), leading
+  H(<<8228>> \o S("a.x"), "idna-maps-to-dot", 0),
+  H(<<65106>> \o S("a.x"), "idna-maps-to-dot", 0),
+  H(S("a") \o <<8228>> \o S("x"), "idna-maps-to-dot", 0),
   \* the last C0 control character inside the host
   H(S("a") \o <<31>> \o S("b"), "c0-us-inside", 0),
   H(S("a") \o <<1>> \o S("b"), "c0-soh-inside", 0),
